@@ -101,6 +101,10 @@ class Link:
         self._last_when = 0.0
         self.tap = None  # tap(event, data, info) for logs / monitors
         self.closed = False
+        # hold = {"cls": class, "from": n, "count": k, "dur": seconds}: the n-th .. (n+k-1)-th datagram of that traffic
+        # class are kept back for `dur` seconds on top of the base delay (a feedback packet that arrives very late)
+        self.hold = None
+        self._hold_seen = 0
 
     def healed(self):
         return self.heal_at is not None and self.loop.time() >= self.heal_at
@@ -130,6 +134,14 @@ class Link:
                     self.tap("send", data, {"act": "blackout"})
                 return
         p = self._profile_for(data)
+        if self.hold is not None and self.classify is not None and self.classify(data) == self.hold["cls"]:
+            self._hold_seen += 1
+            if self.hold["from"] <= self._hold_seen < self.hold["from"] + self.hold.get("count", 1):
+                self.stats["held_back"] += 1
+                self._schedule(data, now + p.base + self.hold["dur"])
+                if self.tap:
+                    self.tap("send", data, {"act": "deliver"})
+                return
         if p is BENIGN or (
             p.drop == 0 and p.dup == 0 and p.corrupt == 0 and p.reorder == 0
             and p.jitter == 0 and p.burst_enter == 0
